@@ -21,7 +21,6 @@ import Muxide.Props.C05
   * `IsDouble x` — timestamp arguments are decodings of 64-bit patterns (`F64` has junk triples);
   * `VideoSizeOk` / `AudioSizeOk` — the payload fits the 32-bit sample-size field (< 4 GiB);
   * `NoSizeLimit m` — the file layout does not hit the 4 GiB `mdat` / chunk-offset limits;
-  * `NoStraddle h` — no accepted frame has PTS and DTS on different sides of 2^63 ticks.
 -/
 namespace Muxide.Props.C04
 open Muxide Muxide.Spec
@@ -605,12 +604,7 @@ theorem C04_audio {m : Muxer} {h : AbsHist} (hinv : Inv m h)
 def NoSizeLimit (m : Muxer) : Prop :=
   ∀ msg, (layoutOut m.w m.width m.height m.md m.fast).res ≠ .ioErr msg
 
-/-- residual hypothesis: no accepted video frame has its PTS and DTS on different sides of 2^63
-    ticks (≈ 3.2 million years) — otherwise `pts as i64 - dts as i64` overflows in `build_ctts` -/
-def NoStraddle (h : AbsHist) : Prop :=
-  ∀ v ∈ h.video, (v.pts.ticks < 2^63 ↔ v.dts.ticks < 2^63)
-
-theorem Inv.no_panic {m : Muxer} {h : AbsHist} (hinv : Inv m h) (hstr : NoStraddle h) (W H : Nat) :
+theorem Inv.no_panic {m : Muxer} {h : AbsHist} (hinv : Inv m h) (W H : Nat) :
     moovPanics W H m.w.vsRev.reverse [] false = false ∧
     moovPanics W H m.w.vsRev.reverse m.w.asRev.reverse true = false := by
   have v1 : m.w.vsRev.reverse.any (fun s => (ctsOf s.pts s.dts).isNone) = false := by
@@ -623,7 +617,7 @@ theorem Inv.no_panic {m : Muxer} {h : AbsHist} (hinv : Inv m h) (hstr : NoStradd
     have hv' : v ∈ h.video := by simpa using hv
     simp only [Prod.mk.injEq] at he
     obtain ⟨_, _, _, _, hcts⟩ := hinv.vgood v hv'
-    rw [← he.1, ← he.2, ctsOf_isSome _ _ (F64.ticks_lt _) (F64.ticks_lt _) hcts (hstr v hv')]
+    rw [← he.1, ← he.2, ctsOf_isNone_false]
     exact Bool.false_ne_true
   have v2 : m.w.asRev.reverse.any (fun s => (ctsOf s.pts s.dts).isNone) = false := by
     rw [List.any_eq_false]
@@ -670,7 +664,7 @@ def GoodFin (vs : List Violation) (r : Reply) : Prop :=
   | _ => False
 
 /-- **finish_in_place_with_stats** (fault-free sink) -/
-theorem C04_finishStats {m : Muxer} {h : AbsHist} (hinv : Inv m h) (hsz : NoSizeLimit m) (hstr : NoStraddle h) :
+theorem C04_finishStats {m : Muxer} {h : AbsHist} (hinv : Inv m h) (hsz : NoSizeLimit m) :
     GoodFin (finishViolations h) (m.finishStats deliverAll).2.2 := by
   by_cases h0 : m.finished = true
   · have : (m.finishStats deliverAll).2.2 = .err .alreadyFinished none := by
@@ -715,7 +709,7 @@ theorem C04_finishStats {m : Muxer} {h : AbsHist} (hinv : Inv m h) (hsz : NoSize
     · exact g1 (Or.inr g)
     · rw [hinv.width, hinv.height] at g; exact g2 g
   -- the layout stage: no size error (hypothesis), no panic (invariant)
-  obtain ⟨p1, p2⟩ := hinv.no_panic hstr m.width m.height
+  obtain ⟨p1, p2⟩ := hinv.no_panic m.width m.height
   have hnp : (layoutOut m.w m.width m.height m.md m.fast).res ≠ .panic := by
     unfold layoutOut
     simp only []
@@ -1074,9 +1068,9 @@ theorem C04_audio_iff {m : Muxer} {h : AbsHist} (hinv : Inv m h)
     (m.writeAudio pts d).2 = .ok ↔ audioViolations h pts d = [] :=
   (C04_audio hinv pts d hc hsize).ok_iff
 
-theorem C04_finish_iff {m : Muxer} {h : AbsHist} (hinv : Inv m h) (hsz : NoSizeLimit m) (hstr : NoStraddle h) :
+theorem C04_finish_iff {m : Muxer} {h : AbsHist} (hinv : Inv m h) (hsz : NoSizeLimit m) :
     (∃ s, (m.finishStats deliverAll).2.2 = .stats s) ↔ finishViolations h = [] :=
-  (C04_finishStats hinv hsz hstr).stats_iff
+  (C04_finishStats hinv hsz).stats_iff
 
 /-- `finish_in_place` replies `ok` where `finish_in_place_with_stats` replies the statistics -/
 theorem finish_reply (m : Muxer) :
@@ -1085,9 +1079,9 @@ theorem finish_reply (m : Muxer) :
   rcases hx : m.finishStats deliverAll with ⟨m', o, r⟩
   cases r <;> rfl
 
-theorem C04_finish {m : Muxer} {h : AbsHist} (hinv : Inv m h) (hsz : NoSizeLimit m) (hstr : NoStraddle h) :
+theorem C04_finish {m : Muxer} {h : AbsHist} (hinv : Inv m h) (hsz : NoSizeLimit m) :
     Good (finishViolations h) (m.finish deliverAll).2.2 := by
-  have hg := C04_finishStats hinv hsz hstr
+  have hg := C04_finishStats hinv hsz
   rw [finish_reply]
   cases hr : (m.finishStats deliverAll).2.2 with
   | stats s => rw [hr] at hg; exact hg
@@ -1095,9 +1089,9 @@ theorem C04_finish {m : Muxer} {h : AbsHist} (hinv : Inv m h) (hsz : NoSizeLimit
   | ok => rw [hr] at hg; exact absurd hg id
   | panic => rw [hr] at hg; exact absurd hg id
 
-theorem C04_finish_ok_iff {m : Muxer} {h : AbsHist} (hinv : Inv m h) (hsz : NoSizeLimit m) (hstr : NoStraddle h) :
+theorem C04_finish_ok_iff {m : Muxer} {h : AbsHist} (hinv : Inv m h) (hsz : NoSizeLimit m) :
     (m.finish deliverAll).2.2 = .ok ↔ finishViolations h = [] :=
-  (C04_finish hinv hsz hstr).ok_iff
+  (C04_finish hinv hsz).ok_iff
 
 /-- **C04, errors are explained**: an error reply names a precondition this very call violated -/
 theorem C04_err_explains_video (hsplit : ∀ d, nals d = splitAnnexB d) {m : Muxer} {h : AbsHist} (hinv : Inv m h)
@@ -1122,15 +1116,15 @@ theorem C04_err_explains_audio {m : Muxer} {h : AbsHist} (hinv : Inv m h)
   rw [hr] at this; exact this
 
 theorem C04_err_explains_finishStats {m : Muxer} {h : AbsHist} (hinv : Inv m h) (hsz : NoSizeLimit m)
-    (hstr : NoStraddle h) (e : MErr) (i : Option Nat) (hr : (m.finishStats deliverAll).2.2 = .err e i) :
+    (e : MErr) (i : Option Nat) (hr : (m.finishStats deliverAll).2.2 = .err e i) :
     ∃ v ∈ finishViolations h, v ∈ explains e.name := by
-  have := C04_finishStats hinv hsz hstr
+  have := C04_finishStats hinv hsz
   rw [hr] at this; exact this
 
 theorem C04_err_explains_finish {m : Muxer} {h : AbsHist} (hinv : Inv m h) (hsz : NoSizeLimit m)
-    (hstr : NoStraddle h) (e : MErr) (i : Option Nat) (hr : (m.finish deliverAll).2.2 = .err e i) :
+    (e : MErr) (i : Option Nat) (hr : (m.finish deliverAll).2.2 = .err e i) :
     ∃ v ∈ finishViolations h, v ∈ explains e.name := by
-  have := C04_finish hinv hsz hstr
+  have := C04_finish hinv hsz
   rw [hr] at this; exact this
 
 /-! ### the convenience forms: same decisions as the calls they wrap -/
@@ -1257,7 +1251,6 @@ theorem noSizeLimit_standard (m : Muxer) (hfast : m.fast = false)
 
 example : NoSizeLimit (build ⟨.vp9, 640, 480, none, none, false⟩) :=
   noSizeLimit_standard _ rfl (by decide)
-example : NoStraddle (initHist ⟨.vp9, 640, 480, none, none, false⟩) := by intro v hv; cases hv
 example : IsDouble (F64.ofBits 0x3FF8000000000000) := F64.canon_ofBits _
 example : VideoSizeOk (build ⟨.vp9, 640, 480, none, none, false⟩) [0x49, 0x83, 0x42, 0, 0, 1, 1, 0] := by
   unfold VideoSizeOk; decide
@@ -1273,8 +1266,7 @@ theorem C04_nondouble_counterexample :
 /-- The former straddle defect (PTS = 2^63 ticks, DTS = 2^63 − 1024 ticks accepted, then `finish`
     panicked on `pts as i64 - dts as i64`) is repaired in /repo (`fix:` "composition offsets are
     computed without i64 overflow"): on the same input the model now finishes with statistics.
-    `NoStraddle` is therefore no longer necessary; it is kept as a (harmless) hypothesis of the
-    finish theorems above until they are re-proved without it. -/
+    The former hypothesis `NoStraddle` of the finish theorems has been removed accordingly. -/
 theorem C04_straddle_repaired :
     let cfg : Config := { codec := .vp9, width := 640, height := 480, audio := none, md := none, fast := false }
     let fr : Bytes := [0x49, 0x83, 0x42, 0, 0, 1, 1, 0]
